@@ -45,4 +45,14 @@ CHECKS = {
     design_ref='DESIGN.md section 2, C01',
     note='LR tables come from the harness LR generator over the repository grammar (validated by the upstream syntax suites). 7 genuine printer defects remain as known findings; 15 were repaired by fix: commits.',
     technique='property-based testing: print/re-parse round trip with AST equality and print idempotence over corpus, grammar-generated and spliced texts'),
+ 'C02': dict(
+    text='Pairs (A, B) of valid-by-construction schemas (feature model: modules, scalars/enums, abstract/concrete types with single, chained and multiple inheritance, single/multi required/optional properties and links, link properties with constraints, defaults, computeds incl. backlinks, overloaded pointers, pointer/type constraints with errmessage and annotations, indexes, abstract+inheritable annotations, aliases, globals, functions, access policies); B is A with 1-3 of 27 edit kinds, a fresh schema, or empty. The migration is computed and committed exactly as edb.testbase.lang.run_ddl does (apply_sdl -> delta_schemas -> ddlast_from_delta -> CREATE MIGRATION); the result must equal apply_sdl(B) under an independent field-by-field semantic dump and under the maintainers diff (empty both ways); the committed DDL script is re-parsed from text, replayed on A and compared too.',
+    design_ref='DESIGN.md section 2, C02',
+    note='Test-mode path (no prompts, no data); semdump ignores ids, backend names, positions, inherited_fields bookkeeping and the overloaded spelling flag; expressions are compared as programs. Three genuine defects are known findings.',
+    technique='property-based testing: generated schema pairs, differential against apply_sdl(B) with two independent comparators plus DDL-text replay'),
+ 'C11': dict(
+    text='For generated schema values, 3 variants each: module blocks permuted / split / declarations hoisted to fully-qualified top level, declarations permuted within modules, members permuted within type bodies (rendered by the harness, not by the repository printer). Every variant must be accepted iff the canonical document is and produce an equal schema (independent semantic dump + empty delta both ways).',
+    design_ref='DESIGN.md section 2, C11',
+    note='Schemas come from the feature model of gen/sdl.py; weak (untypeable-path) dependencies are rare in it - the ordering function itself is covered exhaustively by C20.',
+    technique='metamorphic property-based testing: permutations of SDL documents must yield equal schemas'),
 }
